@@ -604,6 +604,34 @@ def hardlink_crash_family(sc, seed, tier, stats):
     return viol
 
 
+def bigtwin_crash_family(sc, seed, tier, stats):
+    """(seed C09-1, out of reach of the hook since 6520fd3: below 10 MiB a multiply-linked destination is replaced by Transferrer::update
+    before the delta path is entered) a REAL 11 MB destination with a second name (a cp -al snapshot) updated through the delta path:
+    old or new at every kill point"""
+    viol = []
+    for wi in range(1 if tier == "quick" else 2):
+        r = vlib.rng_for(seed, "C09-bigtwin%d" % wi)
+        base = os.path.join(sc.dir, "bt%d" % wi)
+        src, tpl = base + "/src", base + "/tpl"
+        os.makedirs(src); os.makedirs(tpl)
+        new = r.randbytes(11 * 1024 * 1024 + 4096 * wi)
+        old = bytearray(new)
+        for off in (100_000, 5_000_000, 10_500_000):
+            old[off:off + 4096] = r.randbytes(4096)
+        for root, data, mt in ((src, new, 1005), (tpl, bytes(old), 800)):
+            with open(root + "/big.bin", "wb") as f:
+                f.write(data); f.flush(); os.fsync(f.fileno())
+            os.utime(root + "/big.bin", ns=(ew.T0NS + mt * NS,) * 2)
+            with open(root + "/keep.txt", "wb") as f:
+                f.write(b"bystander")
+            os.utime(root + "/keep.txt", ns=(ew.T0NS + 700 * NS,) * 2)
+        os.link(tpl + "/big.bin", tpl + "/snap.keep")
+        world.sync_fs()
+        viol += crash_sweep(sc, seed, stats, "bigtwin-crash-%d" % wi, base, src, tpl, ["-j1"], ["big.bin"], world.sha(tpl + "/big.bin"), world.sha(src + "/big.bin"), False)
+        shutil.rmtree(base, ignore_errors=True)
+    return viol
+
+
 def follow_crash_family(sc, seed, tier, stats):
     """(66e379c) --links follow over a regular file at or above the gate that sits in the link's place: it is an existing large
     destination being updated -- old or new at every kill point (it used to be truncated and rewritten where it was)"""
@@ -653,7 +681,7 @@ def run(tier, seed):
             for x in vv:
                 x["seed"] = seed
             viol += vv; diffs += dd
-        left_viol = leftover_worlds(sc, seed, tier, stats) + hardlink_crash_family(sc, seed, tier, stats) + follow_crash_family(sc, seed, tier, stats)
+        left_viol = leftover_worlds(sc, seed, tier, stats) + hardlink_crash_family(sc, seed, tier, stats) + follow_crash_family(sc, seed, tier, stats) + bigtwin_crash_family(sc, seed, tier, stats)
         # with several workers the attribution of logged calls to executed prefixes is a heuristic (a thread may have logged a
         # call it never got to execute): a difference seen there counts only if it shows up again at the same kill point
         softv = [x for x in viol if x.get("flags", {}).get("j", 1) > 1 and "k" in x and "not being written" in x.get("why", "")]
